@@ -100,6 +100,25 @@ CLAIMED["C08"] = {
     "design_ref": "DESIGN.md section 8, C08",
 }
 
+CLAIMED["C18"] = {
+    "text": "Theorem C18_scan_truncated: for EVERY well-framed packet list and EVERY cut position k (0..length), every filter, payloads "
+            "loaded or skipped, file or pipe, the scanner+reader model hands on each complete packet before the cut exactly as for the "
+            "untruncated input (same offset/header/payload; the untruncated result starts with the same CDPs) plus at most one CDP, the "
+            "header of the packet whose payload was cut with an empty payload, and reading ends on its own (model fuel never exhausted); "
+            "C18_cut_decomposition characterises the cut; C18_validator_prefix: validators are left folds, so findings for the packets "
+            "before the cut are a prefix of the findings for any longer list. The proof term type-checks only for the reader the current "
+            "source describes as keeping its batch on a pipe seek past the end (Gen.Facts.batch_kept_on_invalid_input; "
+            "C18_refuted_when_batch_dropped is the witness for the other behaviour: defect F16, found by this model and repaired by a fix: "
+            "commit, like F2). Tied to the code by the real scanner over file and pipe at every cut position of short streams and around "
+            "batch boundaries, and by the rebuilt binary at every cut position (incl. 0..11 bytes) in check and view modes: exit status, "
+            "panic text, findings below the cut against the untruncated run.",
+    "note": "Trusted: Coq kernel; gen translator; harness; the rebuilt binary; extraction + driver; Python cut decomposition; ANSI stripping. "
+            "Stave-level frame messages are attributed to the packet that closes the frame (inclusion instead of equality is checked there). "
+            "A stalled pipe and wall-clock behaviour are outside the model.",
+    "technique": "Coq proof (scanner invariant generalised to an arbitrary tail; fold prefix lemma; regenerated structural facts) + exhaustive cut-position correspondence on short streams",
+    "design_ref": "DESIGN.md section 8, C18",
+}
+
 ALL = ["C%02d" % i for i in range(1, 21)]
 PENDING_REASON = "not claimed yet: the model/proof for this property is still under construction in this development (see DESIGN.md section 12 build order); no check is registered until its theorem file compiles without admits and its correspondence stream runs"
 
@@ -147,7 +166,7 @@ def main():
 
 
 HOOK_COMMITS = ["f32fed4"]
-FIX_COMMITS = ["2eb10e8"]
+FIX_COMMITS = ["2eb10e8", "024b878", "afd2aa3"]
 NOT_APPLICABLE = {}
 
 if __name__ == "__main__":
